@@ -151,7 +151,8 @@ def find_fn(src, name, impl=None, nth=None):
     out = []
     for k, hdrs in cands:
         header = hdrs[-1].strip() if hdrs else ''
-        if impl is not None and impl not in ' '.join(header.split()):
+        hnorm = ' '.join(header.split())
+        if impl is not None and (hnorm != impl[1:] if impl.startswith('=') else impl not in hnorm):
             continue
         # find body '{' at depth 0 of (), [], <> is not bracket-matched -> scan for first '{' not inside ()/[]
         j = k
